@@ -125,10 +125,12 @@ mutual
       | _, _ => none
 end
 
-/-- a leaf: what it states itself wins over what the typedef chain gives -/
+/-- a leaf: what it states itself wins over what the typedef chain gives; `required` - the leaf is mandatory, the
+    leaf-list has min-elements above 0 - and the default of the type is not used (RFC 7950 7.6.1, 7.7.2) -/
 def leafEff (mods : List (String × List Typedef)) (fuel : Nat) (chain : List (List Typedef))
-    (t : TExpr) (dflt units : Option String) : Option Eff :=
+    (t : TExpr) (dflt units : Option String) (required : Bool := false) : Option Eff :=
   (derive mods fuel chain t).map fun
-    | .mk f r l p e b m path bases fd d u => .mk f r l p e b m path bases fd (dflt.orElse fun _ => d) (units.orElse fun _ => u)
+    | .mk f r l p e b m path bases fd d u =>
+      .mk f r l p e b m path bases fd (dflt.orElse fun _ => if required then none else d) (units.orElse fun _ => u)
 
 end YangVerif.TypeDerive
